@@ -8,6 +8,9 @@ import (
 	"github.com/free5gc/openapi/models"
 )
 
+// TS 24.501 9.11.3.9 / 9.11.3.49: number of elements in one partial list
+const maxNumOfElementsInPartialList = 16
+
 // TS 24.501 9.11.3.9
 func TaiListToNas(taiList []models.Tai) []uint8 {
 	var taiListNas []uint8
@@ -20,30 +23,41 @@ func TaiListToNas(taiList []models.Tai) []uint8 {
 		}
 	}
 
-	numOfElementsNas := uint8(len(taiList)) - 1
-
-	taiListNas = append(taiListNas, uint8(typeOfList<<5)+numOfElementsNas)
-
-	switch typeOfList {
-	case 0x00:
-		plmnNas := PlmnIDToNas(*plmnId)
-		taiListNas = append(taiListNas, plmnNas...)
-
-		for _, tai := range taiList {
-			if tacBytes, err := hex.DecodeString(tai.Tac); err != nil {
-				logger.ConvertLog.Warnf("Decode tac failed: %+v", err)
-			} else {
-				taiListNas = append(taiListNas, tacBytes...)
-			}
+	// a partial tracking area identity list holds at most 16 elements (the number of elements is
+	// coded minus one in five bits, values above 15 are unused): a longer list is coded as several
+	// partial lists
+	for len(taiList) > 0 {
+		partialList := taiList
+		if len(partialList) > maxNumOfElementsInPartialList {
+			partialList = partialList[:maxNumOfElementsInPartialList]
 		}
-	case 0x02:
-		for _, tai := range taiList {
-			plmnNas := PlmnIDToNas(*tai.PlmnId)
-			if tacBytes, err := hex.DecodeString(tai.Tac); err != nil {
-				logger.ConvertLog.Warnf("Decode tac failed: %+v", err)
-			} else {
-				taiListNas = append(taiListNas, plmnNas...)
-				taiListNas = append(taiListNas, tacBytes...)
+		taiList = taiList[len(partialList):]
+
+		numOfElementsNas := uint8(len(partialList)) - 1
+
+		taiListNas = append(taiListNas, uint8(typeOfList<<5)+numOfElementsNas)
+
+		switch typeOfList {
+		case 0x00:
+			plmnNas := PlmnIDToNas(*plmnId)
+			taiListNas = append(taiListNas, plmnNas...)
+
+			for _, tai := range partialList {
+				if tacBytes, err := hex.DecodeString(tai.Tac); err != nil {
+					logger.ConvertLog.Warnf("Decode tac failed: %+v", err)
+				} else {
+					taiListNas = append(taiListNas, tacBytes...)
+				}
+			}
+		case 0x02:
+			for _, tai := range partialList {
+				plmnNas := PlmnIDToNas(*tai.PlmnId)
+				if tacBytes, err := hex.DecodeString(tai.Tac); err != nil {
+					logger.ConvertLog.Warnf("Decode tac failed: %+v", err)
+				} else {
+					taiListNas = append(taiListNas, plmnNas...)
+					taiListNas = append(taiListNas, tacBytes...)
+				}
 			}
 		}
 	}
